@@ -103,7 +103,11 @@ TEnd(e) ==
   /\ calls[e.c].pc = "done"
   /\ LET c == calls[e.c] IN
      /\ IF Check11 \/ ~(c.raw2 = 401 /\ c.acquired) THEN e.status = c.status ELSE e.status \in {401, 403}
-     /\ Check11 => (e.untouched /\ e.unclosed = c.open)
+     \* e.same: the caller's request after RoundTrip against a deep snapshot taken before it, field by
+     \* field (method, URL, Host, Header nil-ness and contents, Trailer, Body identity, GetBody, ContentLength,
+     \* Close, Form/PostForm/MultipartForm/TLS/Response nil-ness, TransferEncoding, context, a request sharing
+     \* the Header map)
+     /\ Check11 => ((\A k \in DOMAIN e.same : e.same[k]) /\ e.unclosed = c.open)
   /\ Return(e.c)
 
 Consume ==
